@@ -9,6 +9,7 @@ mod c14;
 mod c16;
 mod c17;
 mod c19;
+mod c20;
 mod defs;
 mod enc;
 mod gen;
@@ -78,6 +79,7 @@ fn main() {
                 "C16" => c16::gen(&mut rng, thorough, &mut out),
                 "C17" => c17::gen(&mut rng, thorough, &mut out),
                 "C19" => c19::gen(&mut rng, thorough, &mut out),
+                "C20" => c20::gen(&mut rng, thorough, &mut out),
                 "C14" => c14::gen(&mut rng, thorough, &mut out),
                 "C13" => c13::gen(&mut rng, thorough, &mut out),
                 "SMOKE" => smoke::gen(&mut rng, thorough, &mut out),
